@@ -12,7 +12,17 @@ const FB: f64 = 10.0;
 type Log<S> = RefCell<Vec<(S, S)>>;
 
 fn tape_fn<'a, S: Sc>(log: &'a Log<S>) -> impl FnMut(S) -> S + 'a {
+    tape_fn_budget(log, 400)
+}
+
+/// the function under test enforces an evaluation budget: a solve that does not terminate is reported
+/// (as a violated obligation) instead of being cut silently
+fn tape_fn_budget<'a, S: Sc>(log: &'a Log<S>, budget: usize) -> impl FnMut(S) -> S + 'a {
     move |x: S| {
+        if log.borrow().len() >= budget {
+            S::prove("terminates-within-the-evaluation-budget", S::b_const(false));
+            std::panic::panic_any(crate::eng::CutPath(format!("evaluation budget {} exhausted", budget)));
+        }
         let v = S::tape("f", &[x], -FB, FB);
         log.borrow_mut().push((x, v));
         v
@@ -68,7 +78,7 @@ fn bisect<S: Sc>(k: i32, n_max: usize) {
     // memoised on its argument, so these are the values the routine will see
     let (fa, fb) = (S::tape("f", &[a], -FB, FB), S::tape("f", &[b], -FB, FB));
     S::assume(S::b_or(S::b_and(S::b_lt(fa, S::lit(0.0)), S::b_lt(S::lit(0.0), fb)), S::b_and(S::b_lt(fb, S::lit(0.0)), S::b_lt(S::lit(0.0), fa))));
-    let res = bisection((a, b), tape_fn(&log), tol, n_max);
+    let res = bisection((a, b), tape_fn_budget(&log, n_max + 3), tol, n_max);
     S::reach("bisection");
     all_inside(&log, a, b, "bisection/evaluates-only-inside-the-bracket");
     S::prove("bisection/evaluation-count-bounded", S::b_const(log.borrow().len() <= n_max + 2));
@@ -109,7 +119,8 @@ fn brent_h<S: Sc>(k: i32) {
     let log: Log<S> = RefCell::new(vec![]);
     let (fa, fb) = (S::tape("f", &[a], -FB, FB), S::tape("f", &[b], -FB, FB));
     S::assume(S::b_or(S::b_and(S::b_lt(fa, S::lit(0.0)), S::b_lt(S::lit(0.0), fb)), S::b_and(S::b_lt(fb, S::lit(0.0)), S::b_lt(S::lit(0.0), fa))));
-    let res = brent((a, b), tape_fn(&log), tol);
+    // Brent on a bracket of width <= 2^k tol: generous budget (bisection alone would need k+1 evaluations)
+    let res = brent((a, b), tape_fn_budget(&log, 12 + 8 * k as usize), tol);
     S::reach("brent");
     all_inside(&log, a, b, "brent/evaluates-only-inside-the-bracket");
     match res {
@@ -162,11 +173,13 @@ fn itp_h<S: Sc>(seed: i64, member: usize) {
     let b = if reversed { a - width } else { a + width };
     let k1 = g.range_r(0.05, 0.5, 2);
     let k2 = [1.0 + 0.3, 2.0, 2.5][member % 3];
-    let n0 = [0.0, 0.5, 0.0][member % 3];
+    let n0: f64 = [0.0, 0.5, 0.0][member % 3];
     let log: Log<S> = RefCell::new(vec![]);
     let (fa, fb) = (S::tape("f", &[S::lit(a)], -FB, FB), S::tape("f", &[S::lit(b)], -FB, FB));
     S::assume(S::b_or(S::b_and(S::b_lt(fa, S::lit(0.0)), S::b_lt(S::lit(0.0), fb)), S::b_and(S::b_lt(fb, S::lit(0.0)), S::b_lt(S::lit(0.0), fa))));
-    let res = itp((S::lit(a), S::lit(b)), tape_fn(&log), S::lit(k1), S::lit(k2), S::lit(n0), S::lit(tol));
+    let n_half_ref = ((width / (2.0 * tol)).log2().ceil()) as usize;
+    let budget = 2 + 4 * (n_half_ref + 2 * (n0.ceil() as usize) + 2);
+    let res = itp((S::lit(a), S::lit(b)), tape_fn_budget(&log, budget + 1), S::lit(k1), S::lit(k2), S::lit(n0), S::lit(tol));
     S::reach("itp");
     all_inside(&log, S::lit(a), S::lit(b), "itp/evaluates-only-inside-the-bracket");
     let n_half = ((width / (2.0 * tol)).log2().ceil()) as usize;
@@ -180,6 +193,54 @@ fn itp_h<S: Sc>(seed: i64, member: usize) {
             S::prove("itp/sign-change-within-tolerance-of-result", near);
         }
         Err(_) => S::prove("itp/opposite-signs-do-not-give-err", S::b_const(false)),
+    }
+}
+
+/// ITP on the one-parameter family f(x) = slope*(x - c), root c symbolic anywhere in a seeded concrete
+/// bracket that is many tolerances wide: termination within the method's own bound, containment, and the
+/// result within tol of the true root.  (One symbolic quantity: the queries stay univariate.)
+fn itp_linear<S: Sc>(seed: i64, member: usize) {
+    let mut g = Lcg::new(seed * 211 + member as i64);
+    let tol = [0.01, 0.05, 1e-3][member % 3];
+    let wf = [7.0, 13.0, 24.5, 6.2][member % 4];
+    let width = tol * wf;
+    let a = g.range_r(-2.0, 2.0, 2);
+    let reversed = member % 2 == 1;
+    let (lo, hi) = (a, a + width);
+    let (p, q) = if reversed { (hi, lo) } else { (lo, hi) };
+    let k1 = g.range_r(0.05, 0.4, 2);
+    let k2 = [1.3, 2.0, 2.5][member % 3];
+    let n0: f64 = [0.0, 0.25, 1.0][(member / 2) % 3];
+    let slope = if member % 4 < 2 { 1.5 } else { -0.75 };
+    let c = S::input("root", lo + 1e-3 * width, hi - 1e-3 * width);
+    let n_half = ((width / (2.0 * tol)).log2().ceil()) as usize;
+    let budget = 2 + n_half + n0.ceil() as usize + 3;
+    let calls = RefCell::new(0usize);
+    let inside = RefCell::new(true);
+    let res = itp(
+        (S::lit(p), S::lit(q)),
+        |x: S| {
+            *calls.borrow_mut() += 1;
+            if *calls.borrow() > 4 * budget {
+                S::prove("itp-linear/terminates-within-the-evaluation-budget", S::b_const(false));
+                std::panic::panic_any(crate::eng::CutPath("evaluation budget exhausted".into()));
+            }
+            if !S::holds(S::b_and(S::b_le(S::lit(lo - 1e-12), x), S::b_le(x, S::lit(hi + 1e-12)))) {
+                *inside.borrow_mut() = false;
+            }
+            S::lit(slope) * (x - c)
+        },
+        S::lit(k1),
+        S::lit(k2),
+        S::lit(n0),
+        S::lit(tol),
+    );
+    S::reach("itp-linear");
+    S::prove("itp-linear/evaluates-only-inside-the-bracket", S::b_const(*inside.borrow()));
+    S::prove("itp-linear/evaluation-count-within-the-method-bound", S::b_const(*calls.borrow() <= budget));
+    match res {
+        Ok(x) => S::prove_m("itp-linear/result-within-tolerance-of-the-root", S::b_close(x, c, S::lit(tol * (1.0 + 1e-9))), S::b_gt((x - c).sabs(), S::lit(tol * 1.5))),
+        Err(_) => S::prove("itp-linear/opposite-signs-do-not-give-err", S::b_const(false)),
     }
 }
 
@@ -238,6 +299,12 @@ pub fn run(pr: &mut PropRun, t: &Tier) {
         cfg.max_decisions = 150;
         cfg.max_paths = 1500;
         run_h!(pr, cfg, itp_h, t.seed, m);
+    }
+    for m in 0..(if t.thorough { 12 } else { 6 }) {
+        let mut cfg = t.cfg(&format!("C07:itp-linear(member={})", m));
+        cfg.max_decisions = 400;
+        cfg.max_paths = 1500;
+        run_h!(pr, cfg, itp_linear, t.seed, m);
     }
     let mut cfg = t.cfg("C07:itp(errors)");
     cfg.max_decisions = 40;
